@@ -31,7 +31,7 @@ def plan(tier, seed):
 
 def floors(tier):
     strata = ["%s/%s" % (a, c) for a in ("overlap", "simple") for c in ("fits", "split-2", "split-3+")] + \
-             ["overlap/wide-label", "overlap/le2-labels-unfit", "none/no-split-expected", "overlap/no-split-expected", "engine-reported-layering", "engine-reconfigured", "engine-recompute-after-in-place-changes"]
+             ["overlap/wide-label", "overlap/le2-labels-unfit", "none/no-split-expected", "overlap/no-split-expected", "engine-reported-layering", "engine-reconfigured", "engine-recompute-after-in-place-changes", "engine-with-another-engine-alive"]
     return {"evaluations": 800, "strata": strata, "events": {"Distributor.distribute": 800, "Force.compute": 300}, "distinct_nontrivial": 150}
 
 
@@ -112,6 +112,12 @@ def run_engine(ctx, mon, labels, opts, tag, first=None):
         ctx.stratum("engine-reconfigured", generated=1, judged=1, held=1)
     lst = WL.make_nodes(labels)
     f.nodes(lst)
+    if hash(repr(labels[:2])) % 4 == 0:
+        # another engine is constructed and configured between configuring this one and its compute(); it stays alive
+        other = Force({"minPos": 0, "maxPos": 77, "density": 0.2, "algorithm": "simple", "stubWidth": 3, "nodeSpacing": 11})
+        other.set_options({"maxPos": None})
+        case["other_engine_alive"] = True
+        ctx.stratum("engine-with-another-engine-alive", generated=1, judged=1, held=1)
     try:
         f.compute()
         if hash(repr(labels[:3])) % 5 == 1:
